@@ -346,9 +346,18 @@ def keyCandidate (st : Reg String) : Option Nat :=
   | some i => some i
   | none => lookUpField st "ID"
 
-/-- schema.go:253-280: the prioritized primary field.  Returns (fields, primaryFields, prioritized). -/
-def prioritize (fs : List AField) (st : Reg String) (prims : List Nat) : List AField × List Nat × Option Nat :=
-  let (fs, prims, prio) := match keyCandidate st with
+/-- the field at index `i` is backed by a column (`DBName != ""`) -/
+def hasColumn (fs : List AField) (i : Nat) : Bool := ((nth? fs i).map (fun f => f.dbName != "")).getD false
+
+/-- schema.go:253-280: the prioritized primary field.  Returns (fields, primaryFields, prioritized).
+    `needCol` (regenerated fact `Gen.priorityNeedsColumn`, extract/gen_c03_priority.go): the `if` in front of the
+    conventional-key block also demands `prioritizedPrimaryField.DBName != ""` — the repair of finding F28; a field that
+    `LookUpField` found through its Go name but that has no column (`gorm:"-"`) is then no key candidate at all. -/
+def prioritize (needCol : Bool) (fs : List AField) (st : Reg String) (prims : List Nat) : List AField × List Nat × Option Nat :=
+  let cand := match keyCandidate st with
+    | some i => if needCol && !hasColumn fs i then none else some i
+    | none => none
+  let (fs, prims, prio) := match cand with
     | some i =>
       if isPrimary fs i then (fs, prims, some i)
       else if prims.isEmpty then
@@ -381,11 +390,11 @@ def defaultsStep (fs : List AField) (prio : Option Nat) : List AField × List Na
           if !f.hasDefault || f.defaultIface.isSome then base ++ [p] else base)
       else (fs, base)
 
-/-- `ParseWithSpecialTableName` after the field loop, for the flattened fields `fs0` -/
-def finish (fs0 : List AField) : SchemaAttrs :=
+/-- `ParseWithSpecialTableName` after the field loop, for the flattened fields `fs0` (`needCol`: see `prioritize`) -/
+def finish (needCol : Bool) (fs0 : List AField) : SchemaAttrs :=
   let fs1 := nameCols fs0
   let st := parseReg (fs1.map toPField)
-  let pr := prioritize fs1 st (primsFrom fs1 0 fs1 {} [])
+  let pr := prioritize needCol fs1 st (primsFrom fs1 0 fs1 {} [])
   let ds := defaultsStep pr.1 pr.2.2
   { fields := ds.1, dbNames := st.dbNames, byDB := st.dbNames.filterMap (fun c => (assoc c st.byDB).map (fun e => (c, e.1))),
     byName := (st.byName.map (·.1)).eraseDups.filterMap (fun n => (assoc n st.byName).map (·.1)),
@@ -403,19 +412,19 @@ inductive Decl where
 
 /-- `schema.Fields` before the schema-level steps: schema.go:203-211 + the embedded branch of ParseField, which parses
     the embedded struct as a schema of its own (`finish`) and then adjusts its fields -/
-def collect : Decl → List AField
+def collect (needCol : Bool) : Decl → List AField
   | .nil => []
-  | .leaf l next => parseField l :: collect next
+  | .leaf l next => parseField l :: collect needCol next
   | .embed name anon tag kids next =>
     let t := parseTagSetting tag
     let (c, u, r, _, _) := perms t false
     if hasTag t "EMBEDDED" || (anon && (c || u || r)) then
-      (finish (collect kids)).fields.map (adjust name t) ++ collect next
+      (finish needCol (collect needCol kids)).fields.map (adjust name t) ++ collect needCol next
     else
       -- not embedded: a struct field without column (a relation candidate; not generated)
-      { name := name, path := [name], creatable := c, updatable := u, readable := r, tags := t } :: collect next
+      { name := name, path := [name], creatable := c, updatable := u, readable := r, tags := t } :: collect needCol next
 
-def parseDecl (d : Decl) : SchemaAttrs := finish (collect d)
+def parseDecl (needCol : Bool) (d : Decl) : SchemaAttrs := finish needCol (collect needCol d)
 
 def SchemaAttrs.bad (s : SchemaAttrs) : Bool := s.fields.any (·.bad)
 def SchemaAttrs.unmodelled (s : SchemaAttrs) : Bool := s.fields.any (·.unmodelled)
